@@ -21,7 +21,27 @@ One `HeapObserver` per replay; use `post` as the post-hook of mut_ex.replay; the
 from __future__ import annotations
 
 MODELLED_PREFIXES = ("(OAdd ", "(ORemove ", "(ORemoveChildren ", "(OClear ", "(OMove ", "(OMeta ", "(ONewTree ", "(ODel ", "(OShort ", "(OSetData ", "(ORename ",
-                     "(OSort ", "(OAddNode ", "(OAddTree ", "(OCopyTo ", "(OTreeCopy ", "(ONodeCopy ")
+                     "(OSort ", "(OAddNode ", "(OAddTree ", "(OCopyTo ", "(OTreeCopy ", "(ONodeCopy ",
+                     "(OFilter ", "(OFromDict ", "(OTreeFromDict ")
+
+
+# the tree a node object is created in (recorded at construction: a node that is created and removed again within
+# one operation - a refused from_dict - has `_tree is None` by the time the step is observed)
+import common as _H  # noqa: E402  (installs the allocation-index wrapper first)
+from nutree.node import Node as _Node  # noqa: E402
+
+_HOME_TREE: dict[int, object] = {}
+_prev_init = _Node.__init__
+
+
+def _home_init(self, *a, **kw):
+    p = kw.get("parent")
+    if p is not None:
+        _HOME_TREE[id(self)] = getattr(p, "_tree", None)
+    return _prev_init(self, *a, **kw)
+
+
+_Node.__init__ = _home_init
 
 
 def modelled(coq_op: str) -> bool:
@@ -54,7 +74,7 @@ class HeapObserver:
     def _adopt(self, w, new_ids):
         for n in new_ids:
             nd = w.raw(n)
-            t = getattr(nd, "_tree", None)
+            t = _HOME_TREE.get(id(nd), getattr(nd, "_tree", None))
             ti = next((i for i, x in enumerate(w.trees) if x is t), -1)
             self.home[n] = ti
 
